@@ -39,6 +39,12 @@ func c01Classify(x *c01Ctx, d *c01Div) string {
 		return "zsh-redirect-before-funcdecl-moves-into-body"
 	case c01ZshMinifyShortForm(x, d):
 		return "zsh-minify-short-form-absorbs-continuation"
+	case c01CommentEndsInBackslash(x, d):
+		return "comment-ending-in-backslash-continues-line"
+	case c01HeredocSkippedAfterTestOrLet(x, d):
+		return "parser-heredoc-body-skipped-after-test-or-let-clause"
+	case c01SingleLinePendingHeredoc(x, d):
+		return "singleline-pending-heredoc-written-inside-next-statement"
 	}
 	return ""
 }
